@@ -88,6 +88,21 @@ func init() {
 					if !ok {
 						return true
 					}
+					// re-entering the evaluator through an entry point that takes NO context: the
+					// evaluation continues under whatever context the environment happens to carry
+					if f := originOf(Callee(info, ce)); f != nil && c.evalLikeSet()[f] {
+						takesCtx := false
+						sig := f.Type().(*types.Signature)
+						for i := 0; i < sig.Params().Len(); i++ {
+							if isCtx(sig.Params().At(i).Type()) {
+								takesCtx = true
+							}
+						}
+						if !takesCtx {
+							construct := ord.next("context-less re-entry " + shortName(f))
+							obs = append(obs, mkOb(c, rid, u, construct, ce, Violated, "the function holds the evaluation's context ("+P.Name()+") but continues the evaluation through "+f.Name()+", which takes none and uses the context stored on the environment: for a form evaluated directly in the root environment or in a function body that is nil or stale, so cancellation and the deadline stop applying to everything "+f.Name()+" runs", true))
+						}
+					}
 					for _, a := range ce.Args {
 						tv, ok := info.Types[a]
 						if !ok || !isCtx(tv.Type) {
@@ -117,3 +132,101 @@ func init() {
 }
 
 func hasPrefix(s, p string) bool { return len(s) >= len(p) && s[:len(p)] == p }
+
+// CTX.bridge-dominates — C15 / C04 ("time:sleep is bounded by … the deadline
+// and cancellation of the context the evaluation runs under"): a builtin learns
+// which context it runs under from ONE place: LEnv.call stores the evaluation's
+// ctx on the environment it hands to the builtin (env.evalCtx = ctx), and
+// env.Context() reads it back.  The store has to happen for every builtin
+// call; made conditional ("only if the env has none yet") an environment that
+// already carries an OLDER context — the one a previous, finished evaluation
+// ran under, or the long-lived one the embedder installed — keeps it, and
+// sleep / load obey the wrong deadline.
+func init() {
+	register(&Rule{ID: "CTX.bridge-dominates", Floor: 1,
+		Doc: "in LEnv.call every invocation of a function value of builtin type (the result of Builtin(), called with the environment) is dominated by a store of call's own ctx parameter into that environment's evalCtx field: the store is unconditional, so the callee always sees the context of THIS evaluation, never one left on the environment earlier",
+		Run: func(c *Ctx) []Obligation {
+			const rid = "CTX.bridge-dominates"
+			fn, fd, pkg := c.LookupFunc("lisp.(*LEnv).call")
+			fld := c.LookupField("lisp.LEnv.evalCtx")
+			if fn == nil || fld == nil {
+				return []Obligation{anchorMissing(rid, "LEnv.call / LEnv.evalCtx")}
+			}
+			u := FuncUnit{fn, fd, pkg}
+			info := pkg.TypesInfo
+			fc := c.cfgOf(u, nil)
+			var ctxP types.Object
+			for _, p := range paramObjs(u) {
+				if n, ok := types.Unalias(p.Type()).(*types.Named); ok && n.Obj().Pkg() != nil && n.Obj().Pkg().Path() == "context" {
+					ctxP = p
+				}
+			}
+			if ctxP == nil {
+				return []Obligation{anchorMissing(rid, "the context parameter of LEnv.call")}
+			}
+			// stores <env>.evalCtx = ctx, by the environment they are made on
+			type st struct {
+				env types.Object
+				loc Loc
+			}
+			var stores []st
+			for _, b := range fc.G.Blocks {
+				if !fc.Live(b) {
+					continue
+				}
+				for i, n := range b.Nodes {
+					as, ok := n.(*ast.AssignStmt)
+					if !ok || len(as.Lhs) != 1 || len(as.Rhs) != 1 {
+						continue
+					}
+					se, ok := ast.Unparen(as.Lhs[0]).(*ast.SelectorExpr)
+					if !ok || FieldOfSelector(info, se) != fld || identObj(info, as.Rhs[0]) != ctxP {
+						continue
+					}
+					stores = append(stores, st{identObj(info, se.X), Loc{b, i}})
+				}
+			}
+			dominated := func(env types.Object, at Loc) bool {
+				for _, s := range stores {
+					if s.env == env && env != nil && fc.Dominates(s.loc, at) {
+						return true
+					}
+				}
+				return false
+			}
+			var obs []Obligation
+			ord := &ordinal{}
+			for _, b := range fc.G.Blocks {
+				if !fc.Live(b) {
+					continue
+				}
+				for i, n := range b.Nodes {
+					for _, ce := range callsIn(n, false) {
+						// a call of a function VALUE whose first argument is an environment
+						if Callee(info, ce) != nil || len(ce.Args) == 0 {
+							continue // a declared function: evaluator funnels receive ctx as an argument
+						}
+						if tv, ok := info.Types[ce.Fun]; !ok || tv.IsType() {
+							continue
+						}
+						if _, isSig := info.TypeOf(ce.Fun).Underlying().(*types.Signature); !isSig {
+							continue
+						}
+						envArg := identObj(info, ce.Args[0])
+						if envArg == nil || !hasSuffix(envArg.Type().String(), "lisp.LEnv") {
+							continue
+						}
+						construct := ord.next("builtin invocation")
+						if dominated(envArg, Loc{b, i}) {
+							obs = append(obs, mkOb(c, rid, u, construct, ce, Proved, "dominated by `env.evalCtx = ctx`", true))
+						} else {
+							obs = append(obs, mkOb(c, rid, u, construct, ce, Violated, "the builtin can be invoked without this evaluation's context having been stored on the environment it receives (the store is conditional or missing): env.Context() then returns whatever context an earlier evaluation or the embedder left there, and time:sleep / load obey that one's deadline and cancellation", true))
+						}
+					}
+				}
+			}
+			return obs
+		}})
+}
+
+func hasSuffix(s, suf string) bool { return len(s) >= len(suf) && s[len(s)-len(suf):] == suf }
